@@ -393,7 +393,13 @@ class EnvironmentsAreAFunctionOfTheMaps(_c17.EnvironmentWithName):
     prop = 'C15'
 
 
-TARGETS = [VariableFilesOrder(), VariableFilesOrderParametrize(), LayerFold(), HashSerialisation(), HashEnvironment(),
+# "the same resolved configurations in every process": replication must not depend on the order of its own bookkeeping lists
+# (sets / dictionaries of references) -- C03's contract on overlapping replicated producers, for both orders of that list
+from pyvc.spec import shared as _shared
+import contracts.C03 as _c03
+REPLICATION_ORDER = [_shared(_c03.CompileReplicaOverlappingProducers(), 'C15')]
+
+TARGETS = REPLICATION_ORDER + [VariableFilesOrder(), VariableFilesOrderParametrize(), LayerFold(), HashSerialisation(), HashEnvironment(),
            ReadUserVariables(), LayerFoldFrame(), EnvironmentsAreAFunctionOfTheMaps(), DslComponentNames()]
 LEMMAS = []
 BOUNDED = [UnorderedInventory()]
